@@ -30,3 +30,11 @@ def show(rx, unroll=0, maxp=12, inline=None):
 if '--show' in sys.argv:
     i = sys.argv.index('--show')
     show(sys.argv[i + 1], int(sys.argv[i + 2]) if len(sys.argv) > i + 2 else 0)
+
+if '--p' in sys.argv:
+    from mirsym import pqueries
+    import time
+    t = time.time()
+    r = getattr(pqueries, sys.argv[sys.argv.index('--p') + 1])(ctx, 'quick')
+    print({k: v for k, v in r.items() if k != 'cex'}, 'wall %.1f' % (time.time() - t))
+    print(r.get('cex', ''))
